@@ -1,4 +1,116 @@
-"""C07 — not built yet."""
+"""C07 — code generation is deterministic (DESIGN.md §5.7).
+
+Proof side: per-class permutation-invariance theorems over Lib/Determinism.lean and the regenerated
+inventory of map-iteration sites (Generated/C07Sites.lean, go/types over the packages reachable from
+the compiler's entry points), every site classified in Props/C07.lean (`site_inventory_covered`).
+Tie: in-process correspondence of the repository's FileManager.BuildResponse, meta.Marshal of a
+FileDescriptor and pkg/namespace against the compiled model (tv_c07).
+Oracle (implementation only): the thriftgo binary built from the repository is run repeatedly with
+one command line (GOMAXPROCS 1,2,7,16; different and re-used output directories; a recording
+plugin) and sha256 of every output file / of the plugin's stdin is compared across runs.
+"""
+import json, os
+from vlib import core
+
+THEOREMS = ["Props.C07." + t for t in [
+    "perm_into_map", "perm_into_map_needs_distinct_keys", "ns_add_comm", "std_imports_distinct",
+    "perm_then_sort", "perm_then_sort_strings", "perm_any", "perm_sum", "replacer_perm",
+    "insertion_keys_prefix_free", "insertion_replace_perm", "insertion_replace_needs_key_alphabet",
+    "descriptor_bytes_perm_false", "descriptor_bytes_order_sensitive", "file_descriptor_order_sensitive",
+    "descriptor_bytes_perm_partial", "descriptor_bytes_sorted_perm", "plugin_request_order_sensitive",
+    "fastgo_imports_order_sensitive", "fastgo_imports_formatted_perm",
+    "fastgo_imports_unformatted_order_sensitive", "site_inventory_covered", "emit_in_order_sites"]]
+
+RULE = ("in-process cases (R: Feed histories with insertion points and patches; D: FileDescriptors with 0..4 includes and 0..6 "
+        "namespaces, one case per distinct byte string meta.Marshal produced in 8 calls; N: namespace.Add sequences, for "
+        "pairwise-distinct names/ids also 3 random permutations) are distinct by sha256 of the op line and non-trivial when they "
+        "have >=1 insertion point and >=1 patch / a map of >=2 entries / >=2 entries; dynamic cases are (generated multi-file IDL "
+        "program x option set) combos, each executed runs_per_combo times with GOMAXPROCS cycling 1,2,7,16, relative and absolute "
+        "output directories and once into a directory holding a stale previous output; a combo counts as distinct non-trivial when "
+        "thriftgo accepted it and it produced >=1 output file or plugin request; evaluations = in-process cases + thriftgo executions")
+
+
 def run(ctx):
-    print("C07: no check built yet")
-    return 2
+    exe = ctx.go_build("c07")
+    plug = ctx.go_build("c07plugin")
+    tg = ctx.go_build_repo(".", "thriftgo", tags="")
+    ctx.trusted += [
+        "translator harness/cmd/c07 extract: go list -deps + go/types over the packages reachable from the thriftgo command, sdk and "
+        "tool/trimmer (package-level reachability; build tags off); the table `std` of importManager.init read from its map literal",
+        "hand classification of each site in Props/C07.lean (reading the code at the site and its callers)",
+        "correspondence harness harness/cmd/c07 run vs tv_c07 (BuildResponse, meta.Marshal(FileDescriptor), namespace.Add)",
+        "the recording plugin harness/cmd/c07plugin and sha256 comparison of output trees",
+    ]
+    ctx.assumptions += [
+        "Go map iteration is modelled as an arbitrary permutation of the entries; the runtime's seed cannot be set from outside, "
+        "repetition (and re-randomisation per range statement in-process) is the only lever",
+        "strings.NewReplacer (generic algorithm, earlier pairs win at one position, no rescanning), regexp leftmost matching of "
+        "insertReg, sort.Slice, text/template's sorted map range and go/format's import sorting as modelled / as documented",
+        "concurrent writing of output files cannot change content: covered by C19 (files_written), not here",
+        "source of non-determinism other than map iteration and scheduling (time, pid, environment) are observed only by the dynamic oracle",
+    ]
+    ctx.partial += [
+        "descriptor_bytes_perm is FALSE on the current tree (descriptor_bytes_perm_false, descriptor_bytes_order_sensitive); proved: "
+        "descriptor_bytes_perm_partial (<=1 entry) and descriptor_bytes_sorted_perm (sorted variant = suggested repair)",
+        "plugin request bytes and fastgo import block without go/format: order-sensitive (plugin_request_order_sensitive, "
+        "fastgo_imports_order_sensitive); no positive theorem exists for the code as it is",
+        "ns_add_comm / perm_into_map need pairwise-distinct keys; insertion_replace_perm needs patch point names inside the "
+        "insertion-point alphabet (insertion_replace_needs_key_alphabet shows the hypothesis is necessary)",
+    ]
+    tools = ["-thriftgo", tg, "-plugin", plug or ""]
+    if exe and ctx.replay:
+        doc = json.load(open(ctx.replay))
+        if doc.get("kind") != "broken-obligation":
+            rc, out = core.sh([exe, "replay", "-repo", core.REPO, "-file", ctx.replay, "-dir", ctx.work] + tools, timeout=1200)
+            if rc != 0:
+                raise core.MachineryError("c07 replay failed: " + out[-2000:])
+            for f in json.loads(out.strip().split("\n")[-1]):
+                ctx.add_violation(f["key"], f["what"], f["input"], f["expected"], f["observed"])
+            ctx.obligation("replay-executed", True)
+            ctx.cov.update(evaluations=max(40, int((doc.get("input") or {}).get("runs", 40))), distinct_nontrivial=1,
+                           samples=[dict(replayed=doc.get("key"), cmdline=(doc.get("input") or {}).get("cmdline"))])
+            return ctx.finish(rule="replay of one (IDL, command line): up to 40 executions compared")
+    if exe:
+        rc, gen = core.sh([exe, "extract", "-repo", core.REPO], timeout=600)
+        if rc != 0:
+            ctx.obligation("translator:c07-extract", False, gen[-2000:])
+        else:
+            ctx.obligation("translator:c07-extract", True)
+            ctx.write_generated("C07Sites", gen)
+            ctx.cov["sites"] = gen.count("⟩")
+    built = ctx.lake_build(["ThriftVerif.Props.C07"], "lake-build:Props.C07")
+    drv = ctx.lake_build(["tv_c07"], "lake-build:tv_c07")
+    if built:
+        ctx.audit("C07", THEOREMS)
+        if ctx.tier == "thorough":
+            ctx.leanchecker(["ThriftVerif.Props.C07"])
+    if exe:
+        rc, out = core.sh([exe, "run", "-repo", core.REPO, "-dir", ctx.work, "-seed", str(ctx.seed), "-tier", ctx.tier] + tools,
+                          timeout=3000)
+        if rc != 0:
+            raise core.MachineryError("c07 run failed: " + out[-2000:])
+        st = json.load(open(os.path.join(ctx.work, "stats.json")))
+        dyn = json.load(open(os.path.join(ctx.work, "dyn.json")))
+        if not plug:
+            ctx.notes.append("recording plugin did not build: plugin requests not compared")
+        dist = dict(st["distribution"])
+        dist.update({"dyn:optset=" + k: v for k, v in (dyn.get("per_optset") or {}).items()})
+        dist.update({"dyn:shape:" + k: v for k, v in (dyn.get("program_shape_totals") or {}).items()})
+        dist.update({"dyn:differing:" + k: v for k, v in (dyn.get("differing_by_signature") or {}).items()})
+        ctx.cov.update(evaluations=st["evaluations"] + dyn["executions"],
+                       distinct_nontrivial=st["distinct_nontrivial"] + dyn["distinct_accepted_combos"],
+                       samples=(st["samples"] or [])[:6] + (dyn.get("samples") or [])[:4],
+                       distribution=dist, exhaustive=False,
+                       in_process_cases=st["evaluations"], thriftgo_executions=dyn["executions"],
+                       combos=dyn["combos"], combos_accepted=dyn["combos_accepted"], combos_differing=dyn["combos_differing"],
+                       combos_rejected=dyn.get("combos_rejected") or [], runs_per_combo=dyn["runs_per_combo"],
+                       files_compared=dyn["files_compared"], plugin_requests_compared=dyn["plugin_requests_compared"],
+                       shrink_tests=dyn["shrink_tests"])
+        if dyn["combos"] and dyn["combos_accepted"] * 2 < dyn["combos"]:
+            raise core.MachineryError("generator problem: thriftgo rejected most generated programs: %s" % (dyn.get("combos_rejected") or [])[:3])
+        for f in (st.get("oracle_failures") or []):
+            ctx.add_violation(f["key"], f["what"], f["input"], f["expected"], f["observed"])
+        if drv:
+            model = ctx.run_model("tv_c07", os.path.join(ctx.work, "ops.txt"))
+            ctx.diff_lines("c07", os.path.join(ctx.work, "ops.txt"), os.path.join(ctx.work, "impl.txt"), model)
+    return ctx.finish(rule=RULE)
